@@ -37,12 +37,14 @@ type impTarget struct {
 var impTargets = []impTarget{
 	{dir: "fiat-shamir", file: "transcript.go", ns: "FiatShamir", out: "Imp/Transcript.lean",
 		funcs: []string{"NewTranscript", "Bind", "ComputeChallenge"}},
+	{dir: "internal/parallel", file: "execute.go", ns: "Parallel", out: "Imp/Execute.lean", funcs: []string{"Execute"}},
 }
 
 // ---------------------------------------------------------------------------------------------- types
 
 type ity struct {
-	k    string // int bool string byte slice map struct ptr hash error
+	k    string // int bool string byte slice map struct ptr hash error events (func(int,…) parameter) waitgroup
+	n    int    // events: number of int arguments
 	elem *ity
 	name string
 }
@@ -129,6 +131,28 @@ func (p *impPkg) goType(e ast.Expr) *ity {
 		if id, ok := v.X.(*ast.Ident); ok && id.Name == "hash" && v.Sel.Name == "Hash" {
 			return tyHash
 		}
+		if id, ok := v.X.(*ast.Ident); ok && id.Name == "sync" && v.Sel.Name == "WaitGroup" {
+			return &ity{k: "waitgroup"}
+		}
+	case *ast.FuncType:
+		// a callback `func(int, …, int)` without results: its calls are recorded as events
+		if v.Results == nil || len(v.Results.List) == 0 {
+			n := 0
+			for _, fl := range v.Params.List {
+				if id, ok := fl.Type.(*ast.Ident); !ok || id.Name != "int" {
+					n = -1
+					break
+				}
+				if len(fl.Names) == 0 {
+					n++
+				} else {
+					n += len(fl.Names)
+				}
+			}
+			if n >= 1 {
+				return &ity{k: "events", n: n}
+			}
+		}
 	case *ast.ArrayType:
 		if v.Len == nil {
 			return &ity{k: "slice", elem: p.goType(v.Elt)}
@@ -163,6 +187,10 @@ func (p *impPkg) lty(t *ity, qual bool) string {
 		return "Hash"
 	case "error":
 		return "Err"
+	case "events":
+		return "List (" + strings.TrimSuffix(strings.Repeat("Int × ", t.n), " × ") + ")"
+	case "waitgroup":
+		return "Unit"
 	case "slice":
 		if t.elem.k == "byte" {
 			return "Bytes"
@@ -196,8 +224,10 @@ func (p *impPkg) zero(t *ity) string {
 		return "0"
 	case "bool":
 		return "false"
-	case "string", "slice":
+	case "string", "slice", "events":
 		return "[]"
+	case "waitgroup":
+		return "()"
 	case "hash":
 		return "{}"
 	case "error":
@@ -286,6 +316,14 @@ func exprText(e ast.Expr) string {
 		return exprText(v.X) + "[" + exprText(v.Index) + "]"
 	case *ast.BasicLit:
 		return v.Value
+	case *ast.BinaryExpr:
+		return exprText(v.X) + " " + v.Op.String() + " " + exprText(v.Y)
+	case *ast.CallExpr:
+		var as []string
+		for _, a := range v.Args {
+			as = append(as, exprText(a))
+		}
+		return exprText(v.Fun) + "(" + strings.Join(as, ", ") + ")"
 	}
 	return fmt.Sprintf("<%T>", e)
 }
@@ -362,6 +400,14 @@ func (p *impPkg) translateFunc(name string) string {
 		t := p.paramType(fl.Type)
 		for _, n := range fl.Names {
 			f.declare(fl, n.Name, t)
+			if t.k == "events" {
+				// the callback is not a Lean parameter: the list of its calls is threaded like a receiver and returned
+				if f.recv != "" {
+					p.die(fl, "callback parameter in a method / second callback")
+				}
+				f.recv, f.recvTy, f.evRecv = n.Name, t, true
+				continue
+			}
 			params = append(params, "("+lname(n.Name)+" : "+p.lty(t, false)+")")
 		}
 	}
@@ -392,6 +438,15 @@ func (p *impPkg) translateFunc(name string) string {
 	}
 	f.push()
 	body := f.seq(fd.Body.List, nil, c, "  ", nil, true)
+	if f.evRecv {
+		body = "  let " + lname(f.recv) + " : " + p.lty(f.recvTy, false) + " := []  -- calls of the callback, in order\n" + body
+	}
+	if f.usesNumCPU {
+		params = append([]string{"(numCPU : Int)"}, params...)
+	}
+	for _, fu := range f.fuels {
+		params = append(params, "("+fu+" : Nat)")
+	}
 	var b strings.Builder
 	for _, h := range f.helpers {
 		b.WriteString(h + "\n")
